@@ -925,9 +925,28 @@ impl<'p, W, R, T> CompilationScope<'p, W, R, T> {
             XExpr::Call(func0, args) => {
                 let func_type = self.type_of(func0)?;
                 if let XType::XCallable(spec) = func_type.as_ref() {
+                    if spec.param_types.len() != args.len() {
+                        return Err(CompilationError::CallableBindingFailed);
+                    }
+                    for (param, arg) in spec.param_types.iter().zip(args) {
+                        let arg_type = self.type_of(arg)?;
+                        match param.bind_in_assignment(&arg_type) {
+                            Some(bind) if bind.is_trivial() => {}
+                            _ => {
+                                return Err(CompilationError::InvalidArgumentType {
+                                    expected: param.clone(),
+                                    got: arg_type,
+                                })
+                            }
+                        }
+                    }
                     return Ok(spec.return_type.clone());
                 }
                 if let XType::XFunc(func) = func_type.as_ref() {
+                    let (min_args, max_args) = func.arg_len_range();
+                    if args.len() < min_args || args.len() > max_args {
+                        return Err(CompilationError::CallableBindingFailed);
+                    }
                     let mut bind = Bind::new();
                     for (param, arg) in func.params.iter().zip(args) {
                         let arg_type = self.type_of(arg)?;
